@@ -172,7 +172,15 @@ func buildWorld(cc *run.Case, pool []namedStrat, nAssets, nStrats int, repoKind 
 			nIn = r.Range(min(40, sc.LastDays-6), sc.LastDays-6)
 		}
 		nOld := r.Pick(0, 0, 3, 40)
-		if repoKind == "sql" && nIn == 0 {
+		if i > 0 && r.Intn(6) == 0 {
+			// a stale asset: nothing (or nothing recent) is known about it, every
+			// strategy is evaluated on an empty window and still reported once
+			nIn = 0
+			if repoKind == "sql" {
+				nOld = r.Pick(3, 40) // its rows are all older than the window
+			}
+		}
+		if repoKind == "sql" && nIn == 0 && nOld == 0 {
 			nIn = 1 // a SQL repository cannot hold an asset without rows: it would be an absent asset
 		}
 		sc.InWindow[name], sc.Old[name] = nIn, nOld
@@ -279,6 +287,13 @@ func (w *btWorld) direct(asset string, si int) directResult {
 	return directResult{<-res, outs}
 }
 
+func firstOr(xs []string) string {
+	if len(xs) == 0 {
+		return ""
+	}
+	return xs[0]
+}
+
 func lastOr[T any](xs []T, zero T) T {
 	if len(xs) == 0 {
 		return zero
@@ -370,7 +385,17 @@ func c13Run(cc *run.Case, w *btWorld, workers int, raceOnly bool) (string, bool)
 	cc.Count("pairs_checked", int64(len(sc.Assets)*len(sc.Strategies)))
 
 	// --- bundled DataReport ---
+	// In a third of the scenarios both bundled reports have already served one
+	// complete run when the run that is judged starts: a report presents the
+	// results of its last run, not of every run it has ever seen.
+	reused := cc.R.Intn(3) == 0
 	data := backtest.NewDataReport()
+	if reused {
+		if err := newBT(repo, data).Run(); err != nil {
+			return fail("Run with DataReport returned an error: " + err.Error())
+		}
+		cc.Count("runs_through_a_used_report", 1)
+	}
 	if err := newBT(repo, data).Run(); err != nil {
 		return fail("Run with DataReport returned an error: " + err.Error())
 	}
@@ -415,8 +440,34 @@ func c13Run(cc *run.Case, w *btWorld, workers int, raceOnly bool) (string, bool)
 	if customDates {
 		html.DateFormat = "2006-01-02 15h04" // the strategy reports must label their rows in THIS format
 	}
+	// What a backtest is told (a date format for ITS pages) is no business of
+	// anything else: a strategy report rendered by the caller looks the same
+	// before and after the run.
+	var probe []*asset.Snapshot
+	for _, a := range sc.Assets {
+		if len(w.inside[a]) > len(probe) {
+			probe = w.inside[a]
+		}
+	}
+	var rowsBefore []string
+	if !raceOnly && len(probe) > 0 {
+		rowsBefore, _ = renderRows(strategy.NewBuyAndHoldStrategy(), probe)
+	}
+	if reused {
+		if err := newBT(repo, html).Run(); err != nil {
+			return fail("Run with HTMLReport returned an error: " + err.Error())
+		}
+		cc.Count("runs_through_a_used_report", 1)
+	}
 	if err := newBT(repo, html).Run(); err != nil {
 		return fail("Run with HTMLReport returned an error: " + err.Error())
+	}
+	if rowsBefore != nil {
+		rowsAfter, _ := renderRows(strategy.NewBuyAndHoldStrategy(), probe)
+		if !eqStrings(rowsBefore, rowsAfter) {
+			return fail(fmt.Sprintf("a strategy report rendered by the caller after the run differs from the same report rendered before it (HTMLReport.DateFormat was %q): first row %q, before the run %q", html.DateFormat, firstOr(rowsAfter), firstOr(rowsBefore)))
+		}
+		cc.Count("caller_reports_compared_across_a_run", 1)
 	}
 	if !raceOnly && customDates {
 		// one strategy report of an asset with snapshots: its date labels carry the hour
